@@ -214,6 +214,11 @@ bool Interp::doExtra(const Step& s, bool& handled)
     if (op == "iter") return doIter(*this, s);
     if (op == "counts") return doCounts(*this, s);
     if (op == "drain") return doDrain(*this, s);
+    {
+        bool h = false;
+        bool ok = doReachFamily(*this, s, h);
+        if (h) return ok;
+    }
     handled = false;
     return true;
 }
